@@ -329,6 +329,14 @@ fn scenario(w: &mut World, ctx: &RunCtx, states: &mut Vec<u64>) -> Result<(), Vi
     }
     // ---- (a) confidentiality: scan the whole capture
     let node_ids: Vec<[u8; 16]> = w.nodes.iter().flat_map(|nd| nd.node_ids.clone()).collect();
+    let markers: std::collections::BTreeSet<Vec<u8>> = w
+        .frames
+        .iter()
+        .filter_map(|f| {
+            let d = &f.data;
+            (0..d.len().saturating_sub(15)).find(|i| d[*i] == b'V' && d[*i + 1] == b'M').map(|i| d[i..i + 16].to_vec())
+        })
+        .collect();
     for r in &w.wire {
         let (fa, fb) = match (r.from_node, w.node_by_addr(r.dst)) {
             (Some(a), Some(b)) => (a, b),
@@ -346,7 +354,8 @@ fn scenario(w: &mut World, ctx: &RunCtx, states: &mut Vec<u64>) -> Result<(), Vi
         }
         for i in 0..=d.len() - 16 {
             let win = &d[i..i + 16];
-            if win[0] == b'V' && win[1] == b'M' && win[2] == 0 && win[3] == 0 {
+            // a marker is 24 bytes, 18 of them random: the first 16 must match one that was really sent
+            if win[0] == b'V' && win[1] == b'M' && markers.contains(win) {
                 return Err(Violation::new("confidential", "payload-cleartext-on-wire", format!("a payload marker appears in clear in a datagram from n{} to n{} although not both ends enabled plain", fa, fb)));
             }
             if win == b"cleartext-payloa" {
